@@ -204,6 +204,8 @@ def run_check(prop, tier, seed, budget=None, only=None, keep=False, quiet=False,
             # attribute the death to the case recorded in the progress file and resume the shard after it
             while rc != 0 and cfg.get("crash_resume") and os.path.exists(out + ".progress") and restarts < 40:
                 prog = json.load(open(out + ".progress"))
+                if deaths and deaths[-1].get("_n") == prog["n"] and deaths[-1].get("_shard") == i:
+                    break  # no progress since the last restart: not a property of one case, give up (reported as a harness error below)
                 if os.path.exists(out):  # checkpoint of everything the dead process had finished before the fatal case
                     try:
                         part = json.load(open(out))
@@ -213,7 +215,7 @@ def run_check(prop, tier, seed, budget=None, only=None, keep=False, quiet=False,
                         pass
                 out = os.path.join(workdir, "result-%d-r%d.json" % (i, restarts + 1))
                 reason = next((l for l in txt.splitlines() if l.startswith("fatal error") or l.startswith("runtime: out of memory") or l.startswith("panic:")), "exit status %d" % rc)
-                deaths.append(dict(sig=prog["sig"], detail="the check process died while running this case: %s\n%s" % (reason, txt[-1500:]), replay=prog["replay"], count=1))
+                deaths.append(dict(sig=prog["sig"], detail="the check process died while running this case: %s\n%s" % (reason, txt[-1500:]), replay=prog["replay"], count=1, _n=prog["n"], _shard=i))
                 restarts += 1
                 args = [a for a in procs_args[i]]
                 args[args.index("-out") + 1] = out
@@ -305,7 +307,9 @@ def finish(prop, cfg, tier, seed, results, hard, notes, fallback, race_report, w
         for a in r.get("assumptions") or []:
             if a not in merged["assumptions"]:
                 merged["assumptions"].append(a)
-        merged["notes"] += r.get("notes") or []
+        for nt in r.get("notes") or []:
+            if nt not in merged["notes"]:
+                merged["notes"].append(nt)
         for k, v in (r.get("extra") or {}).items():
             if isinstance(v, (int, float)) and isinstance(merged["extra"].get(k), (int, float)):
                 merged["extra"][k] += v
